@@ -194,3 +194,36 @@ Proof.
   cbn. intros (a & b & Ha & _ & [Hin _] & _). injection Ha as <-.
   cbn in Hin. lia.
 Qed.
+
+(* ---- total_bounds as the combination of boxes (session 4) ----
+   What the harness' Dask section evaluates in the kernel: DaskGeoSeries.total_bounds is
+   [box_total] (NaN-ignoring min / max, Model/DaskModel.v) of partition_bounds, row i of which
+   is the total_bounds of partition i.  The three theorems say that this combination loses
+   nothing: the total_bounds of an array is the combination of its own bounds rows, and the
+   combination of the total_bounds of any split of the coordinates into pieces (partitions;
+   each piece whole (x, y) pairs) is the total_bounds of the whole. *)
+From SP Require Import Model.Rtree Model.DaskModel Proofs.DaskProofs.
+
+Theorem C13_total_is_union_of_rows : forall a,
+  wf_listarr a = true -> even_outer a = true ->
+  la_total_bounds a = box_total (la_bounds a).
+Proof. exact la_total_is_box_total. Qed.
+Print Assumptions C13_total_is_union_of_rows.
+
+Theorem C13_point_total_is_union_of_rows : forall a,
+  wf_fixarr a = true -> fa_total_bounds a = box_total (fa_bounds a).
+Proof. exact fa_total_is_box_total. Qed.
+Print Assumptions C13_point_total_is_union_of_rows.
+
+Theorem C13_dask_combination : forall pieces,
+  Forall (fun l => Nat.even (length l) = true) pieces ->
+  total_bounds_interleaved (concat pieces) = box_total (map total_bounds_interleaved pieces).
+Proof. exact tbi_concat. Qed.
+Print Assumptions C13_dask_combination.
+
+(* non-vacuity: three partitions, the middle one without any finite coordinate (NaN row) *)
+Example ex_dask_combination :
+  box_total (map total_bounds_interleaved
+               [[Some 3%Z; Some 1%Z; None; Some 9%Z]; [None; None]; [Some (-2)%Z; Some 4%Z]]) =
+  (Some (-2)%Z, Some 1%Z, Some 3%Z, Some 9%Z).
+Proof. vm_compute; reflexivity. Qed.
